@@ -308,6 +308,16 @@ func c03(r *Report) propMeta {
 	r.Rule("C03.R6", "E15 wire fields validated by their own type")
 	r.WireFieldsValidated("wire", "x/tss/types", []string{"MsgSubmitSignature", "MsgSubmitDEs"}, 3)
 
+	r.Rule("C03.R7", "E18 fixed-width wire encodings of pkg/tss values")
+	r.FixedWidth("one-encoding", []fixedWidth{
+		{"pkg/tss.Point.publicKey", "p", "const:33", "tss.Point (compressed secp256k1 point)"},
+		{"pkg/tss.Scalar.Validate", "s", "const:32", "tss.Scalar"},
+		{"pkg/tss.EncSecretShare.Validate", "e", "const:48", "tss.EncSecretShare"},
+		{"pkg/tss/internal/schnorr.ParseSignature", "signature", w.ConstAtom("pkg/tss/internal/schnorr", "SignatureSize"), "tss.Signature"},
+		{"pkg/tss/internal/schnorr.ParseComplaintSignature", "signature", w.ConstAtom("pkg/tss/internal/schnorr", "ComplaintSignatureSize"), "tss.ComplaintSignature"},
+	})
+	r.ExternalCallers("point-parsers", "pkg/tss", "secp256k1/v4.ParsePubKey", []string{"pkg/tss.Point.publicKey", "pkg/tss/internal/schnorr.ParseSignature", "pkg/tss/internal/schnorr.ParseComplaintSignature"})
+
 	return propMeta{
 		Decided: []string{
 			"R1 the generic (unbounded-id) Lagrange path multiplies only in big.Int; Lagrange tables: PRIME_FACTORS[k] multiplies out to k with increasing prime bases for k=2..B (B = the literal of checkLagrangeInput), PRECOMPUTED_POWERS[p][i]==p^i with rows longer than v_p(B!), len(counts) > largest prime, B! < 2^63, N = secp256k1 order; the table path is taken only when every id <= B; duplicate ids and absent mid rejected",
@@ -316,6 +326,7 @@ func c03(r *Report) propMeta {
 			"R4 AggregatePartialSignatures writes Signature/Status/SetSigning only after CombineSignatures and VerifyGroupSigningSignature(group key, message, that same signature) succeeded; the aggregate is (sum R_i, sum z_i)",
 			"R5 signer and verifier take the challenge from the same HashChallenge over the same three operands and both multiply by the Lagrange scalar",
 			"R6 every pkg/tss-typed field of MsgSubmitSignature / MsgSubmitDEs reaches its own type's Validate() from ValidateBasic (the strict 65-byte signature parse, not the prefix-reading R()/S() accessors): what the handler verifies is what the aggregator later parses",
+			"R7 every pkg/tss byte type has exactly one accepted length (Point 33 - compressed only, finding F6 -, Scalar 32, EncSecretShare 48, Signature 65, ComplaintSignature 98): the raw bytes are hashed, a second encoding of the same value would change challenges and symmetric keys",
 		},
 		Undecided: []string{"the algebra (z_i*G == R_i + c*lambda_i*Y_i for honest shares; any threshold subset reconstructs)", "behaviour of the generic path for ids > 20", "secp256k1/keccak implementations"},
 		Assume:    []string{"go/constant evaluates the table literals exactly", "dcrd secp256k1 and go-ethereum keccak are correct"},
